@@ -61,6 +61,9 @@ fn main() {
     std::panic::set_hook(Box::new(|info| {
         if std::env::var("RSIM_PANIC_VERBOSE").is_ok() {
             eprintln!("panic: {}", info);
+            if std::env::var("RUST_BACKTRACE").is_ok() {
+                eprintln!("{}", std::backtrace::Backtrace::force_capture());
+            }
         }
     }));
     let code = match args[1].as_str() {
